@@ -398,13 +398,19 @@ func (c *Caller) AddBg(cmd string, handler func(client *Client, event Event)) (c
 func (c *Caller) AddTmp(cmd string, deadline time.Duration, handler func(client *Client, event Event) bool) (cuid string, done chan struct{}) {
 	done = make(chan struct{})
 
+	// finish removes the handler (a no-op when Remove, Clear or ClearAll got there
+	// first) and closes done exactly once, so that a waiter on done is released
+	// whenever the handler asked to be removed or the deadline passed.
+	var once sync.Once
+	finish := func() {
+		c.Remove(cuid)
+		once.Do(func() { close(done) })
+	}
+
 	c.mu.Lock()
 	cuid = c.register(false, true, cmd, HandlerFunc(func(client *Client, event Event) {
-		remove := handler(client, event)
-		if remove {
-			if ok := c.Remove(cuid); ok {
-				close(done)
-			}
+		if handler(client, event) {
+			finish()
 		}
 	}))
 	c.mu.Unlock()
@@ -416,9 +422,7 @@ func (c *Caller) AddTmp(cmd string, deadline time.Duration, handler func(client 
 			case <-done:
 			}
 
-			if ok := c.Remove(cuid); ok {
-				close(done)
-			}
+			finish()
 		}()
 	}
 
